@@ -150,6 +150,7 @@ register("CW-ALLOC-INIT", rules_wrap.rule_alloc_init)
 register("EBR-DEFAULT-COLLECTOR", rules_wrap.rule_default_collector)
 register("CW-DEFER-WRAPPER", rules_wrap.rule_defer_wrapper)
 register("EBR-INIT", rules_wrap.rule_ebr_init)
+register("EBR-TUNABLES", rules_wrap.rule_tunables)
 register("ORD-COUNT", rules_ord.rule_ord_count)
 register("ORD-EPOCH", rules_ord.rule_ord_epoch)
 register("ORD-QUEUE", rules_ord.rule_ord_queue)
@@ -188,6 +189,6 @@ for _p, _rules in (("C01", ["CW-ALLOC-INIT", "CW-DEFER-WRAPPER"]), ("C02", ["EBR
                    ("C13", ["WRAP-ATOMICS", "EBR-DEFAULT-COLLECTOR", "CW-DEFER-WRAPPER"]),
                    ("C14", ["WRAP-ATOMICS", "EBR-DEFAULT-COLLECTOR"]), ("C17", ["WRAP-ATOMICS"]), ("C18", ["WRAP-ATOMICS"]),
                    ("C20", ["EBR-DEFAULT-COLLECTOR"]),
-                   ("C06", ["MOD-AGING"]),
+                   ("C06", ["MOD-AGING"]), ("C15", ["EBR-TUNABLES"]), ("C04", ["EBR-TUNABLES"]), ("C20", ["EBR-TUNABLES"]),
                    ("C13", ["EBR-INIT"]), ("C14", ["EBR-INIT"]), ("C16", ["EBR-INIT"]), ("C18", ["EBR-INIT"]), ("C20", ["EBR-INIT"])):
     registry.PROPS[_p]["rules"] += [x for x in _rules if x not in registry.PROPS[_p]["rules"]]
